@@ -79,6 +79,7 @@ WEAK void hk_thread_exit(void) { }
 WEAK void hk_fd_created(int fd, const char *w) { (void)fd; (void)w; }
 WEAK void hk_injected(const char *c, int e) { (void)c; (void)e; }
 WEAK void hk_ext_poll(void) { }
+WEAK void hk_kill_pre(pid_t pid, int sig) { (void)pid; (void)sig; }
 WEAK void hk_ext_stuck(void) { }
 WEAK void hk_epoll_ctl(int ep, int op, int fd, struct epoll_event *ev, int r, int e) { (void)ep; (void)op; (void)fd; (void)ev; (void)r; (void)e; }
 WEAK void hk_inotify_init(int fd) { (void)fd; }
@@ -1468,7 +1469,10 @@ pid_t __wrap_wait4(pid_t pid, int *status, int options, struct rusage *ru)
 
 int __wrap_kill(pid_t pid, int sig)
 {
-	int r = __real_kill(pid, sig);
+	int r;
+	if (!in_child)
+		hk_kill_pre(pid, sig);
+	r = __real_kill(pid, sig);
 	int e = errno;
 	if (!in_child)
 		hk_kill(pid, sig, r, e);
